@@ -209,7 +209,7 @@ def units(tier, seed):
     us = []
     fam = {"rayleigh": [None], "rician": [0.0, 0.5, 1.0, 5.0, 20.0, 100.0], "lognormal": [0.0, 4.0, 8.0]}
     for f, ps in fam.items():
-        us.append(Unit(f"exact_{f}", "c13:unit_exact", {"ftype": f, "params": ps, "n_gen": 1500 if T else 200}, 4))
+        us.append(Unit(f"exact_{f}", "c13:unit_exact", {"ftype": f, "params": ps, "n_gen": 8000 if T else 200}, 4))
         for p in ps:
             us.append(Unit(f"stat_{f}_{p}", "c13:unit_stat", {"ftype": f, "param": p, "N": N}, 6))
     return us
